@@ -1265,6 +1265,10 @@ func (x *Exec) doPanic(fr *Frame, in *ssa.Panic, st *State) {
 		st.guard = x.w.ts.False()
 		return
 	}
+	if x.target != nil && contains(x.target.PanicsOnly, desc) {
+		x.note("controlled panic with a %s value: assumed to be recovered by the caller named in the contract (recover is not modelled)", desc)
+		return
+	}
 	x.oblige(st, "panic", desc, x.w.ts.False(), in.Pos())
 }
 
